@@ -28,6 +28,8 @@ import (
 
 func init() { hlib.Register("client", cmdClient) }
 
+var hangProgress int64
+
 type cObs struct {
 	C    []int `json:"c"`
 	Sub  int   `json:"sub"`
@@ -185,6 +187,9 @@ func cmdClient(args []string) {
 		hlib.Fatal("client <tests.ndjson> <trace-out.ndjson>")
 	}
 	res := &hlib.Result{}
+	hlib.Watchdog(res, &hangProgress, 150*time.Second, "client/hang", func() string {
+		return "a replayed behaviour does not end: an operation of the client or its end point never returns"
+	})
 	rec := hlib.NewRecorder()
 	trk := newTracker(rec)
 	out, err := os.Create(args[1])
@@ -203,6 +208,7 @@ func cmdClient(args []string) {
 			return
 		}
 		n++
+		atomic.AddInt64(&hangProgress, 1)
 		rec.Take()
 		r := newCRig(fmt.Sprint("c", n))
 		st := clientOne(res, r, trk, rec, ops)
